@@ -42,6 +42,11 @@ func Main(c16 bool) {
 		csLevel++
 	}
 	ck.RunChunked(func(emit func(Case)) { CarriedState(csLevel, emit) })
+	// 1g. the same raw token 2-4 times in one text (what a token reads as does not depend on an earlier
+	// token that looks the same): double-quoted strings at different columns / depths / as pieces of one
+	// concatenation / inside and outside a pattern statement; single-quoted strings, words, comments
+	ck.RunChunked(RepeatedDq)
+	ck.RunChunked(RepeatedOther)
 	// 1e. byte order mark and other format characters at the start of the text and at token boundaries
 	ck.Run(FormatChars())
 	// 1d. keywords that resemble `pattern`
@@ -54,19 +59,25 @@ func Main(c16 bool) {
 	tokLen, conLen, nLayout, nMal, nFault := 5, 6, 50000, 50000, 0
 	seqLen := 5
 	prefLen := 5
+	repLen, nRepeat := 5, 40000
 	if f.Thorough() {
 		tokLen, conLen, nLayout, nMal = 6, 7, 2000000, 1000000
 		prefLen = 5
 		seqLen = 6
+		repLen, nRepeat = 7, 1500000
 	}
 	if c16 {
 		tokLen, prefLen, conLen, nLayout, nMal, nFault = 4, 3, 4, 40000, 10000, 60000
 		seqLen = 4
+		repLen, nRepeat = 4, 20000
 		if f.Thorough() {
 			tokLen, prefLen, conLen, nLayout, nMal, nFault = 5, 4, 5, 1000000, 200000, 2000000
 			seqLen = 5
+			repLen, nRepeat = 6, 500000
 		}
 	}
+	// 2d. exhaustive, repeated string content: every content twice, the quotes at two different columns
+	ck.RunChunked(func(emit func(Case)) { RepeatedEnum(repLen, emit) })
 
 	// 2a. exhaustive, token level: all strings over the 15-symbol alphabet, raw and behind `pattern ` / `x `
 	ck.RunChunked(func(emit func(Case)) {
@@ -114,6 +125,10 @@ func Main(c16 bool) {
 					text, _, _ = WithBOM(text, 0, "")
 				}
 				emit(Case{Text: text, Stream: "layout"})
+			}
+			for i := 0; i < nRepeat/shards; i++ {
+				toks, comments := GenRepeatTokens(r)
+				emit(Case{Text: RenderRepeat(r, toks, comments), Stream: "repeated_layout"})
 			}
 			for i := 0; i < nMal/shards; i++ {
 				emit(Case{Text: Mutate(r, GenTokensOpt(r, true)), Stream: "malformed"})
